@@ -333,8 +333,11 @@ func body(p program) func() string {
 		if msg := checkDeliveries(calls); msg != "" {
 			vrt.Fail("%s", msg)
 		}
-		if msg := checkQuiescent(p, calls, final); msg != "" {
-			vrt.Fail("%s", msg)
+		// (the sequential replays, with their probe Sends, are the oracle's own business: no choice points)
+		qmsg := ""
+		vrt.Quiet(func() { qmsg = checkQuiescent(p, calls, final) })
+		if qmsg != "" {
+			vrt.Fail("%s", qmsg)
 		}
 		var sig []string
 		for _, c := range calls {
